@@ -8,13 +8,13 @@ from vlib import c21_lib
 
 ID = 'C21'
 LEVEL = 'exploration'
-RULE = ('A case = initial data (3 parents, 4 children, 3 tags, links) + a reader script (attribute reads, to_dict, load, own '
+RULE = ('A case = initial data (3 parents, 2 second owners, 4 children with two independent to-one references, 3 tags, links) + a reader script (attribute reads, to_dict, load, own '
         'assignments of scalar attributes with flush / commit() in the middle of the db_session, len / '
         'iteration / count / in / is_empty / bool / load of collections on both sides of the many-to-many and on the one-to-many, '
         're-fetching queries with fresh parameters: whole tables, children of a parent, collection.select(), prefetch of '
         'collections and references, (object, reference) pairs, get/index, and "read again everything observed so far") + 1-2 '
         'writer scripts (scalar updates, moving a child to another parent / to None, deleting children / parents / tags, '
-        'creating a child, adding / removing many-to-many links, intermediate commits) + a schedule (one choice among runnable '
+        'moving both references of a child in one commit, creating a child, adding / removing many-to-many links, intermediate commits) + a schedule (one choice among runnable '
         'actors per operation) + a layout (Database per actor / one shared Database); three generators: free scripts, observe / '
         'concurrent change / re-fetch / read again, and batch loads (the collection loaded on two owners, a third owner observed, '
         'concurrent change, then count()/len()/is_empty()/in). Oracle: for every (object, non-volatile '
@@ -51,7 +51,24 @@ def _is_m2m_prefetch_growth(case, message):
     return 'prefetch_tags' in kinds or 'prefetch_ps' in kinds
 
 
-EXCLUSIONS = {'o2m_collection_shrinks': _is_o2m_shrink, 'm2m_prefetch_adds_phantoms': _is_m2m_prefetch_growth}
+def _is_refused_row_half_applied_second_reference(case, message):
+    """open finding C21-refused-row-half-applied-second-reference: a reloaded child row whose SECOND reference is refused
+    (phantom in a completely loaded collection of the second owner, UnrepeatableReadError caught by the application) has its
+    FIRST reference already applied to the reverse collections: child.p keeps the old parent while the old parent's collection
+    has lost the child.  Only: both ends disagree (child.p / `child in owner.kids` against iteration), after a caught UnrepeatableReadError, in a case where one writer commit moves
+    both references of a child."""
+    first_line = message.split('\n')[0]
+    ends = message.startswith('[relationship-ends-disagree]') or \
+        (message.startswith('[o2m-collection-') and ' in it) is ' in first_line)    # `child in owner.kids` answers from child.p
+    if not ends or 'CAUGHT UnrepeatableReadError' not in message:
+        return False
+    if not case['actors'][0].get('catch'):
+        return False
+    return any(op[0] == 'move2' for a in case['actors'][1:] for op in a['ops'])
+
+
+EXCLUSIONS = {'o2m_collection_shrinks': _is_o2m_shrink, 'm2m_prefetch_adds_phantoms': _is_m2m_prefetch_growth,
+              'refused_row_half_applied_second_reference': _is_refused_row_half_applied_second_reference}
 
 MANIFEST = {
     'text': 'Generated interleavings (operation granularity, deterministic scheduler) of one reading session with 1-2 committing '
@@ -279,6 +296,45 @@ def move_strategy():
     return build()
 
 
+def tworef_strategy():
+    """children with two independent to-one references (p -> P.kids, q -> Q.kids2): the reader has the child in its cache and
+    has completely loaded one of the target collections; a writer moves BOTH references in one commit; the reader re-fetches
+    the child (catching the loud error in most cases) and looks at both ends of both relationships"""
+    st, c, rop, wop, data, layout, schedule = _strategies()
+    qidx = c21_lib.QUERY_KINDS.index
+
+    @st.composite
+    def build(draw):
+        d = dict(draw(data))
+        k = draw(st.integers(0, 3))
+        pa, pb = draw(st.permutations([0, 1, 2]))[:2]          # old and new P owner (positions in PKS['P'])
+        qa, qb = draw(st.permutations([0, 1]))                  # old and new Q owner
+        d['kids'] = list(d['kids'])
+        d['kids'][k] = [0, 2, 4][pa]
+        d['kq'] = [draw(st.integers(0, 2)) for _ in range(4)]
+        d['kq'][k] = qa + 1
+        know = draw(st.sampled_from([[['attr', 1, k, 1]], [['attr', 1, k, 2]], [['query', qidx('all_K'), 0, 0]],
+                                     [['attr', 1, k, 0]], [['q', 0, k, 0]]]))
+        loaded = draw(st.sampled_from([[['q', 1, qb, 0]], [['q', 2, qb, 0]], [['q', 1, qb, 0]], [['iter', 0, pb, 0]],
+                                       [['len', 0, pb, 0]], [['q', 1, qa, 0]], []]))
+        move = ['move2', k, [0, 1, 3][pb], qb]
+        refetch = draw(st.lists(st.sampled_from([['query', qidx('all_K'), 0, 0], ['query', qidx('filter_K'), 0, 0],
+                                                 ['query', qidx('pairs'), 0, 0], ['query', qidx('kids_of'), pb, 0],
+                                                 ['query', qidx('prefetch_p'), 0, 0]]), min_size=1, max_size=2))
+        ends = list(draw(st.permutations([['attr', 1, k, 0], ['iter', 0, pa, 0], ['iter', 0, pb, 0], ['q', 0, k, 0],
+                                          ['q', 1, qa, 0], ['q', 1, qb, 0], ['in', 0, pa, k], ['q', 3, qb, k]])))
+        ends = ends[:draw(st.integers(2, 5))]
+        reader_ops = know + loaded + refetch + ends
+        writer_ops = [move] + draw(st.lists(wop, max_size=1))
+        actors = [{'session': {}, 'ops': reader_ops, 'end': 'commit', 'catch': draw(st.sampled_from([True, True, True, False]))},
+                  {'session': {}, 'ops': writer_ops, 'end': 'commit'}]
+        sch = [0] * (len(know) + len(loaded)) + [1] * (len(writer_ops) + 1) + [0] * (len(reader_ops) + 1)
+        for pos, val in draw(st.lists(st.tuples(st.integers(0, len(sch) - 1), st.integers(0, 1)), max_size=2)):
+            sch[pos] = val
+        return {'layout': draw(layout), 'data': d, 'actors': actors, 'schedule': sch}
+    return build()
+
+
 def run(ctx):
     env = c21_lib.Env(ctx.workdir)
 
@@ -295,7 +351,7 @@ def run(ctx):
         if verdict.message is not None:
             ctx.fail(case, verdict.message)
     try:
-        ctx.run_test(t, {'case': case_strategy()}, max_examples=ctx.scale(400, 800), name='schedules')
+        ctx.run_test(t, {'case': case_strategy()}, max_examples=ctx.scale(340, 800), name='schedules')
         if ctx.violation is None:
             ctx.run_test(t, {'case': race_strategy()}, max_examples=ctx.scale(450, 900), name='races')
         if ctx.violation is None:
@@ -303,7 +359,9 @@ def run(ctx):
         if ctx.violation is None:
             ctx.run_test(t, {'case': writeback_strategy()}, max_examples=ctx.scale(200, 400), name='writeback')
         if ctx.violation is None:
-            ctx.run_test(t, {'case': move_strategy()}, max_examples=ctx.scale(150, 300), name='moves')
+            ctx.run_test(t, {'case': move_strategy()}, max_examples=ctx.scale(120, 300), name='moves')
+        if ctx.violation is None:
+            ctx.run_test(t, {'case': tworef_strategy()}, max_examples=ctx.scale(120, 300), name='tworef')
     finally:
         env.close()
 
